@@ -187,6 +187,41 @@ def regen(ctx=None):
     return msgs
 
 
+FACTS_JSON = os.path.join(BUILD, "facts.json")
+
+
+def gofacts(ctx=None):
+    """Run the fact extractor extract/gofacts on REPO: rewrites Generated/{Compliance,CallGraph,Globals}.lean and
+    .build/facts.json (registrations + declared flags, call graph, certificate, package-level variable writers).
+    Returns the parsed facts."""
+    with Lock("regen"):
+        exe = os.path.join(BIN, "gofacts")
+        os.makedirs(BIN, exist_ok=True)
+        rc, o = sh(["go", "build", "-o", exe, "./gofacts"], cwd=os.path.join(ROOT, "extract"), env=GOENV, timeout=900)
+        if rc != 0:
+            raise BuildError("building gofacts failed:\n" + o)
+        outdir = os.path.join(LEAN, "GoluaVerif", "Generated")
+        for fn in ("Compliance.lean", "CallGraph.lean", "Globals.lean"):
+            try:
+                os.remove(os.path.join(outdir, fn))
+            except OSError:
+                pass
+        try:
+            os.remove(FACTS_JSON)
+        except OSError:
+            pass
+        rc, o = sh([exe, "-repo", REPO, "-out", outdir, "-json", FACTS_JSON], env=GOENV, timeout=900)
+        if rc != 0:
+            raise BuildError("gofacts failed rc=%d:\n%s" % (rc, o[-3000:]))
+        facts = json.load(open(FACTS_JSON))
+    if ctx is not None:
+        for fn in ("Compliance.lean", "CallGraph.lean", "Globals.lean"):
+            txt = open(os.path.join(outdir, fn)).read()
+            ctx.generated_hashes[fn] = hashlib.sha256(txt.encode()).hexdigest()[:16]
+        ctx.log(o.strip().splitlines()[-1] if o.strip() else "gofacts done")
+    return facts
+
+
 def write_root():
     """lean/GoluaVerif.lean imports every module of the library (so `lake build GoluaVerif` checks all of it)."""
     mods = []
